@@ -16,9 +16,9 @@ ASSUMPTIONS = ["rustls (handshake, record layer, certificate validation) is an o
 SSL_CAPS = DEFAULT_CAPS | CLIENT_SSL
 
 
-def mk(cid, lim=U24_MAX, tls=1, auth="ok", clientcert=0, user=b"jon", split=0, prechunks=None, chunks="*", cmds=(), scripts=(), bighello=0, wcap=0):
+def mk(cid, lim=U24_MAX, tls=1, auth="ok", clientcert=0, user=b"jon", split=0, prechunks=None, chunks="*", cmds=(), scripts=(), bighello=0, wcap=0, caps2=None):
     pre = frame(ssl_request(SSL_CAPS), 1, lim)
-    hs2 = hs41(user, caps=SSL_CAPS)
+    hs2 = hs41(user, caps=SSL_CAPS if caps2 is None else caps2)
     plain = frame(hs2, 2, lim)
     for kind, payload in cmds:
         plain += frame(payload, 0, lim)
@@ -114,6 +114,11 @@ def run(ctx):
         n += 1
         cases.append(mk("c18_%d" % n, cmds=[("query", cmd_query(b"big")), ("ping", cmd_ping()), ("query", cmd_query(b"after"))],
                         scripts=big, chunks="*", clientcert=0, wcap=rng.choice([1000, 97, 4096])))
+    # the encrypted handshake response need not repeat the capability bits of the SSL request
+    for caps2 in (DEFAULT_CAPS, 0x200, DEFAULT_CAPS | 0x8, (rng.getrandbits(32) | 0x200) & ~0x800, (rng.getrandbits(32) | 0xa00)):
+        n += 1
+        cases.append(mk("c18_%d" % n, caps2=caps2, user=rng.choice([b"jon", b"\xff\xfe", b"x" * 30]), cmds=cmdsets[1], scripts=scripts,
+                        split=rng.choice([0, 3, 10000])))
     for lim in (64, 300):
         n += 1
         cases.append(mk("c18_%d" % n, lim=lim, cmds=cmdsets[2], scripts=scripts, chunks=[5]))
